@@ -178,8 +178,59 @@ def structure_change_cases(ctx):
                            "fresh": expected, "first_failing_clause": "reset() rewinds the patterns nested at that time"})
 
 
+# ---- all() / len() / list() at the boundary between two repeats --------------------------------------------------------
+# "all() leaves the pattern rewound in the same way" — from EVERY position, in particular from the start of a later
+# repeat of a plain sequence (where the pattern looks as if nothing had been consumed).
+
+def boundary_all_cases(ctx):
+    from .. import common
+    common.ensure_repo_on_path()
+    import isobar as iso
+    r = ctx.rng
+    for i in range(ctx.scale(150, 6000)):
+        vals = [r.choice([r.randint(-9, 9), None, (r.randint(0, 5), r.randint(6, 9))]) if r.random() < 0.2 else r.randint(-9, 9)
+                for _ in range(r.randint(1, 5))]
+        reps = r.randint(2, 4)
+        shape = r.choice(["plain", "plain", "in-stutter", "in-add", "in-concat", "in-loop"])
+
+        def make():
+            p = iso.PSequence(list(vals), reps)
+            if shape == "in-stutter":
+                return iso.PStutter(p, 1)
+            if shape == "in-add":
+                return p + 0 if all(isinstance(v, int) for v in vals) else iso.PStutter(p, 1)
+            if shape == "in-concat":
+                return iso.PConcatenate([p, iso.PSequence([99], 1)])
+            if shape == "in-loop":
+                return iso.PLoop(p, 2)
+            return p
+        fresh = make().nextn(40)
+        j = r.randint(1, reps - 1) * len(vals) if r.random() < 0.7 else r.randint(0, reps * len(vals))
+        # (not list(p): it asks len(p) first — which rewinds — and then iterates the pattern to its end, by design)
+        how = r.choice(["all", "all-bounded", "len"])
+        p = make()
+        p.nextn(j)
+        if how == "all":
+            p.all()
+        elif how == "all-bounded":
+            p.all(r.randint(1, 6))
+        else:
+            len(p)
+        got = p.nextn(40)
+        case = {"values": repr(vals), "repeats": reps, "shape": shape, "consumed": j, "helper": how}
+        ctx.case(("boundary-all", repr(sorted(case.items()))), nontrivial=j > 0, validated=False, sample=dict(case))
+        ctx.count("boundary-all:" + how, "boundary-all-shape:" + shape)
+        if got != fresh:
+            ctx.violation("C04:all-leaves-rewound:PSequence",
+                          "PSequence(%s, %d) [%s] advanced by %d, then %s: the pattern continues with %s, a newly constructed one yields %s"
+                          % (vals, reps, shape, j, how, got[:10], fresh[:10]),
+                          {"suite": "c04-boundary", "case": case, "after": [repr(x) for x in got[:20]], "fresh": [repr(x) for x in fresh[:20]],
+                           "first_failing_clause": "all() leaves the pattern rewound"})
+
+
 def run(ctx):
     structure_change_cases(ctx)
+    boundary_all_cases(ctx)
     classes = pat_props.focus_classes()
     n_cases = ctx.scale(2500, 250000)
     scripts, meta = [], {}
@@ -193,7 +244,8 @@ def run(ctx):
         cid = "c04-%d" % i
         meta[cid] = (cls, e, k, n, mode)
         if mode == "all":
-            mid = [("next", "a", min(k, 3)), ("all", "a", r.choice([5, 40, 1000]))]
+            # any position before all(): also whole multiples of a short cycle (the boundary between two repeats)
+            mid = [("next", "a", r.choice([min(k, 3), k, r.choice([2, 4, 6, 9, 10, 12])])), ("all", "a", r.choice([5, 40, 1000]))]
         elif mode == "reset2":
             mid = [("next", "a", k), ("reset", "a"), ("reset", "a")]
         else:
